@@ -1,5 +1,6 @@
 import FluteModel.Lemmas.MultiRecvFilter
 import FluteModel.Lemmas.MultiRecvListeners
+import FluteModel.MultiRecvRecv
 /-
   C18 - multi-session demultiplexing, TSI filtering, session listener events.
 
@@ -151,50 +152,86 @@ theorem demux_same_trace {σ π Out : Type} (M : Machine σ π Out) (b b' : Bool
 
 private def exK1 : Key := ⟨⟨none, 1, 5000⟩, 7⟩
 private def exK2 : Key := ⟨⟨none, 2, 5000⟩, 7⟩
-private def exD : Pkt Unit := ⟨7, false, ()⟩
-private def exC : Pkt Unit := ⟨7, true, ()⟩
-private def exOps : List (MultiRecv.Op Unit) :=
+/-- environment input of the driver's machine: the number of writer callbacks the call makes, per key -/
+private def exEnv : List (Key × Nat) := [(exK1, 2), (exK2, 1)]
+private def exD : Pkt (List (Key × Nat)) := ⟨7, false, exEnv⟩
+private def exC : Pkt (List (Key × Nat)) := ⟨7, true, exEnv⟩
+private def exOps : List (MultiRecv.Op (List (Key × Nat))) :=
   [.push exK1.ep (some exD), .push exK2.ep (some exD), .push exK2.ep (some exD), .push exK1.ep (some exD), .push exK2.ep (some exD)]
 
 /-- non-vacuity: two sessions with EQUAL TSI on distinct endpoints, interleaved; the session of the first key ends
     with exactly its own two packets counted, whatever the other one received -/
 example :
-    (localOf exK1 (MultiRecv.run (actMachine none) (State.new false) exOps)).sess.map (·.st.n) = some 2
-      ∧ (localOf exK2 (MultiRecv.run (actMachine none) (State.new false) exOps)).sess.map (·.st.n) = some 3
+    (localOf exK1 (MultiRecv.run (actMachine none) (State.new false) exOps)).sess.map (·.n) = some 2
+      ∧ (localOf exK2 (MultiRecv.run (actMachine none) (State.new false) exOps)).sess.map (·.n) = some 3
       ∧ (exOps.filter (fun op => !foreign exK1 op)).length = 2 := by
   decide
 
 /-! ## 3. Callbacks carry the session's own key -/
 
-/-- In every reachable state a session is stored under the (endpoint, TSI) it was constructed with, and every
-    receiver output (the writer callbacks of that `Receiver`) carries the key it is filed under. -/
-theorem callbacks_carry_key {σ π Out : Type} (M : Machine σ π Out) (b : Bool) (ops : List (MultiRecv.Op π)) :
+/-- For every session machine that forwards the endpoint / TSI it was constructed with (`Machine.Lawful`: the contract
+    of `Receiver`, proved for the receiver model in `recvMachine_lawful`), in every reachable state: the receiver
+    stored under `k` holds `k`, and EVERY writer callback of EVERY logged output - outputs of `push`, of `cleanup`, and
+    of the destruction of a receiver at a close-session packet, at expiry and at drop - carries the key of the table
+    entry that produced it. -/
+theorem callbacks_carry_key {σ π Out : Type} (M : Machine σ π Out) (keyOf : σ → Key) (hl : M.Lawful keyOf)
+    (b : Bool) (ops : List (MultiRecv.Op π)) :
     let s := MultiRecv.run M (State.new b) ops
-    (∀ k se, AL.get s.table k = some se → se.key = k) ∧ (∀ o ∈ s.outs, o.2.1 = o.1) :=
-  keyInv_run M ops (State.new b) (by simp [State.new, AL.keys]) (keyInv_new b)
+    (∀ k st, AL.get s.table k = some st → keyOf st = k) ∧ (∀ o ∈ s.outs, ∀ k' ∈ M.keys o.2, k' = o.1) :=
+  keyInv_run M keyOf hl ops (State.new b) (by simp [State.new, AL.keys]) (keyInv_new M keyOf b)
 
-/-- ... and the outputs caused by pushing a packet carry exactly that packet's (endpoint, TSI). -/
-theorem push_callbacks_carry_packet_key {σ π Out : Type} (M : Machine σ π Out) (b : Bool)
-    (ops : List (MultiRecv.Op π)) (ep : Endpoint) (pkt : Pkt π) :
+/-- ... and the outputs caused by pushing a packet are filed under exactly that packet's (endpoint, TSI), so (by
+    the previous theorem applied to the state after the push) every callback the packet causes carries it. -/
+theorem push_callbacks_carry_packet_key {σ π Out : Type} (M : Machine σ π Out) (keyOf : σ → Key) (hl : M.Lawful keyOf)
+    (b : Bool) (ops : List (MultiRecv.Op π)) (ep : Endpoint) (pkt : Pkt π) :
     let s := MultiRecv.run M (State.new b) ops
-    ∀ o ∈ (MultiRecv.push M s ep (some pkt)).1.outs.drop s.outs.length, o.2.1 = ⟨ep, pkt.tsi⟩ := by
+    ∀ o ∈ newOuts s (MultiRecv.push M s ep (some pkt)).1, o.1 = ⟨ep, pkt.tsi⟩ ∧ ∀ k' ∈ M.keys o.2, k' = ⟨ep, pkt.tsi⟩ := by
   intro s o ho
-  have hinv := (callbacks_carry_key M b ops).1
-  simp only [MultiRecv.push] at ho
-  split at ho
-  · simp at ho
-  · split at ho
+  have hall := (callbacks_carry_key M keyOf hl b (ops ++ [.push ep (some pkt)])).2
+  simp only [MultiRecv.run_append, MultiRecv.run, MultiRecv.step] at hall
+  have hmem : o ∈ (MultiRecv.push M s ep (some pkt)).1.outs := by
+    simp only [newOuts] at ho; exact List.mem_of_mem_drop ho
+  have hfile : o.1 = ⟨ep, pkt.tsi⟩ := by
+    simp only [newOuts, MultiRecv.push] at ho
+    split at ho
+    · simp at ho
     · split at ho
-      · rename_i se hg
-        simp only [List.drop_left', List.mem_singleton] at ho
-        subst ho; exact hinv _ _ hg
-      · simp at ho
-    · split at ho
-      · rename_i se hg
-        simp only [List.drop_left', List.mem_singleton] at ho
-        subst ho; exact hinv _ _ hg
-      · simp only [List.drop_left', List.mem_singleton] at ho
-        subst ho; rfl
+      · split at ho
+        · simp only [List.drop_left', List.mem_cons, List.not_mem_nil, or_false] at ho
+          rcases ho with ho | ho <;> (subst ho; rfl)
+        · simp at ho
+      · split at ho
+        · simp only [List.drop_left', List.mem_singleton] at ho
+          subst ho; rfl
+        · simp only [List.drop_left', List.mem_singleton] at ho
+          subst ho; rfl
+  exact ⟨hfile, fun k' hk' => by rw [← hfile]; exact hall o hmem k' hk'⟩
+
+/-- The logs the theorems speak about are what the driver prints: both logs are append-only and `newEvents` /
+    `newOuts` (printed after each operation) are exactly the entries the operation appended. -/
+theorem driver_prints_what_was_logged {σ π Out : Type} (M : Machine σ π Out) (s : State σ Out) (op : MultiRecv.Op π) :
+    ∃ evs os, (MultiRecv.step M s op).1.events = s.events ++ evs ∧ (MultiRecv.step M s op).1.outs = s.outs ++ os ∧
+      newEvents s (MultiRecv.step M s op).1 = evs ∧ newOuts s (MultiRecv.step M s op).1 = os :=
+  step_logs_append M s op
+
+/-! ### instantiated with the session-level receiver model `Flute.Recv` (receiver.rs), for every object machine `I` -/
+
+/-- isolation is a statement about the modelled `Receiver`: state of the receiver (registries, FDT instances, objects),
+    its writer callbacks incl. those made when it is destroyed, and the listener events at `k` do not depend on the
+    packets of other sessions -/
+theorem demux_isolation_recv {τ : Type} (I : Recv.ObjIface τ) (cfg : Recv.Config) (timeout : Nat) (b : Bool)
+    (ops : List (MultiRecv.Op REnv)) (k : Key) :
+    localOf k (MultiRecv.run (recvMachine I cfg timeout) (State.new b) ops)
+      = localOf k (MultiRecv.run (recvMachine I cfg timeout) (State.new b) (ops.filter (fun op => !foreign k op))) :=
+  demux_isolation (recvMachine I cfg timeout) b ops k
+
+/-- every writer callback of the modelled receivers carries the (endpoint, TSI) of the session that made it -/
+theorem callbacks_carry_key_recv {τ : Type} (I : Recv.ObjIface τ) (cfg : Recv.Config) (timeout : Nat) (b : Bool)
+    (ops : List (MultiRecv.Op REnv)) :
+    ∀ o ∈ (MultiRecv.run (recvMachine I cfg timeout) (State.new b) ops).outs, ∀ c ∈ o.2.calls, c.1 = o.1 := by
+  intro o ho c hc
+  exact (callbacks_carry_key (recvMachine I cfg timeout) RSess.key (recvMachine_lawful I cfg timeout) b ops).2 o ho c.1
+    (by simp only [recvMachine]; exact List.mem_map_of_mem hc)
 
 /-! ## 4. Listener events -/
 
@@ -222,62 +259,127 @@ theorem listener_shape {σ π Out : Type} (M : Machine σ π Out) (b : Bool) (op
 
 /-- After the receiver is dropped every open has been closed, for every key. -/
 theorem listener_all_closed_after_drop {σ π Out : Type} (M : Machine σ π Out) (b : Bool) (ops : List (MultiRecv.Op π)) (k : Key) :
-    alt k (MultiRecv.run M (State.new b) (ops ++ [.drop])).events = some false := by
-  have h := listener_alternation M b (ops ++ [.drop]) k
+    ∀ i, alt k (MultiRecv.run M (State.new b) (ops ++ [.drop i])).events = some false := by
+  intro i
+  have h := listener_alternation M b (ops ++ [.drop i]) k
   simp only at h
   rw [h, MultiRecv.run_append]
   simp [MultiRecv.run, MultiRecv.step, MultiRecv.drop]
 
-/-- Every session end is notified: a close-session packet that finds its session, and an expiry at cleanup,
-    each remove the key from the table AND append exactly one `closed` for it (single-session automaton, which
-    by `demux_solo` is what the receiver does at every key). -/
-theorem session_end_is_notified {σ π Out : Type} (M : Machine σ π Out) (k : Key) (se : Sess σ)
-    (evs : List Event) (outs : List (Key × Key × Out)) (t now : Nat) (p : Pkt π) :
-    (localStep M k ⟨some se, evs, outs⟩ (.close t p)).sess = none ∧
-    (localStep M k ⟨some se, evs, outs⟩ (.close t p)).events = evs ++ [.closed k] ∧
-    (M.expired t se.st = true →
-      (localStep M k ⟨some se, evs, outs⟩ (.cleanup t now)).sess = none ∧
-      (localStep M k ⟨some se, evs, outs⟩ (.cleanup t now) : Local σ Out).events = evs ++ [.closed k]) ∧
-    (M.expired t se.st = false →
-      (localStep M k ⟨some se, evs, outs⟩ (.cleanup t now)).sess.isSome = true ∧
-      (localStep M k ⟨some se, evs, outs⟩ (.cleanup t now) : Local σ Out).events = evs) := by
-  refine ⟨rfl, rfl, ?_, ?_⟩
-  · intro h; simp [localStep, h]
-  · intro h; simp [localStep, h]
+/-- Every session end, on the model the driver runs: whenever an operation makes key `k` leave the session table
+    (a close-session packet, an expiry at cleanup, the drop - there is no other way), it appends exactly one event
+    about `k`, `closed k`, and the last output it files under `k` is the destruction of that receiver (`fini`: the
+    `writer.error` callbacks of the objects still open). -/
+theorem session_end_is_notified {σ π Out : Type} (M : Machine σ π Out) (b : Bool) (ops : List (MultiRecv.Op π))
+    (op : MultiRecv.Op π) (k : Key) :
+    let s := MultiRecv.run M (State.new b) ops
+    let s' := (MultiRecv.step M s op).1
+    (AL.get s.table k).isSome = true → (AL.get s'.table k).isSome = false →
+      (localOf k s').events = (localOf k s).events ++ [.closed k] ∧
+      ∃ pre t i st, (localOf k s').outs = (localOf k s).outs ++ pre ++ [(k, M.fini t i st)] := by
+  intro s s' h1 h2
+  have hn := nodup_run M ops (State.new b) (by simp [State.new, AL.keys])
+  have hstep := localOf_step M s op k hn
+  have hs1 : (localOf k s).sess.isSome = true := h1
+  have hs2 : (localOf k s').sess.isSome = false := h2
+  cases hv : view s.ctl op k with
+  | none => rw [hv] at hstep; simp only at hstep; rw [hstep] at hs2; simp [hs1] at hs2
+  | some ko =>
+    rw [hv] at hstep; simp only at hstep
+    cases hsess : (localOf k s).sess with
+    | none => simp [hsess] at hs1
+    | some st =>
+      cases ko with
+      | data t p => rw [hstep] at hs2; simp [localStep, hsess] at hs2
+      | close t p =>
+        rw [hstep]
+        simp only [localStep, hsess]
+        exact ⟨trivial, [(k, (M.push t st p).2)], t, p.body, (M.push t st p).1, by simp⟩
+      | cleanup t i =>
+        rw [hstep] at hs2 ⊢
+        cases he : M.expired t st
+        · simp [localStep, hsess, he] at hs2
+        · simp only [localStep, hsess, he, ↓reduceIte]
+          exact ⟨trivial, [], t, i, st, by simp⟩
+      | drop t i =>
+        rw [hstep]
+        simp only [localStep, hsess]
+        exact ⟨trivial, [], t, i, st, by simp⟩
+
+/-- ... and every session creation: whenever an operation makes `k` enter the table it appends exactly one event about
+    `k`, `opened k`. -/
+theorem session_creation_is_notified {σ π Out : Type} (M : Machine σ π Out) (b : Bool) (ops : List (MultiRecv.Op π))
+    (op : MultiRecv.Op π) (k : Key) :
+    let s := MultiRecv.run M (State.new b) ops
+    let s' := (MultiRecv.step M s op).1
+    (AL.get s.table k).isSome = false → (AL.get s'.table k).isSome = true →
+      (localOf k s').events = (localOf k s).events ++ [.opened k] := by
+  intro s s' h1 h2
+  have hn := nodup_run M ops (State.new b) (by simp [State.new, AL.keys])
+  have hstep := localOf_step M s op k hn
+  have hs1 : (localOf k s).sess.isSome = false := h1
+  have hs2 : (localOf k s').sess.isSome = true := h2
+  have hsess : (localOf k s).sess = none := by simpa using hs1
+  cases hv : view s.ctl op k with
+  | none => rw [hv] at hstep; simp only at hstep; rw [hstep] at hs2; simp [hs1] at hs2
+  | some ko =>
+    rw [hv] at hstep; simp only at hstep
+    cases ko with
+    | data t p => rw [hstep]; simp [localStep, hsess]
+    | close t p => rw [hstep] at hs2; simp [localStep, hsess] at hs2
+    | cleanup t i => rw [hstep] at hs2; simp [localStep, hsess] at hs2
+    | drop t i => rw [hstep] at hs2; simp [localStep, hsess] at hs2
 
 /-- The Close Session flag may sit on ANY packet of the session (RFC 5651), including data and FDT packets: such a
     packet is first handed to its session's receiver exactly like any other packet (same instant, same state, the
-    whole packet - its output is logged), and only then the session ends, with exactly one `closed`. -/
+    whole packet - its output is logged), and only then the session ends: the receiver is destroyed (its output is
+    logged) and exactly one `closed` is fired.  A close-flagged packet for a key WITHOUT session has no effect at all
+    (`Res.noSession`): no session is created for it, so no `open`, no `close` and no delivery - consistent with
+    "exactly one close per session end, never a close without an open". -/
 theorem close_flagged_packet_is_processed_then_session_ends {σ π Out : Type} (M : Machine σ π Out) (s : State σ Out)
-    (ep : Endpoint) (pkt : Pkt π) (se : Sess σ)
+    (ep : Endpoint) (pkt : Pkt π) (st : σ)
     (hacc : (s.filtering && !(isValid s.filter ep pkt.tsi)) = false) (hc : pkt.close = true)
-    (hg : AL.get s.table ⟨ep, pkt.tsi⟩ = some se) :
+    (hg : AL.get s.table ⟨ep, pkt.tsi⟩ = some st) :
     let s' := (MultiRecv.push M s ep (some pkt)).1
-    s'.outs = s.outs ++ [(⟨ep, pkt.tsi⟩, se.key, (M.push s.clock se.st pkt).2)] ∧
+    s'.outs = s.outs ++ [(⟨ep, pkt.tsi⟩, (M.push s.clock st pkt).2),
+                         (⟨ep, pkt.tsi⟩, M.fini s.clock pkt.body (M.push s.clock st pkt).1)] ∧
     s'.events = s.events ++ [.closed ⟨ep, pkt.tsi⟩] ∧ AL.get s'.table ⟨ep, pkt.tsi⟩ = none := by
   simp [MultiRecv.push, hacc, hc, hg, AL.get_del]
 
-/-- ... so for every session machine whose output does not depend on the flag (the real `Receiver` only records it in
-    `closed_is_imminent`, which nothing reads; validated by the harness' reference runs), the flagged packet delivers
-    exactly what the same packet without the flag delivers. -/
-theorem close_flag_keeps_payload {σ π Out : Type} (M : Machine σ π Out) (s : State σ Out)
-    (ep : Endpoint) (pkt : Pkt π) (se : Sess σ)
-    (hneutral : ∀ t st (p : Pkt π), (M.push t st { p with close := true }).2 = (M.push t st { p with close := false }).2)
-    (hacc : (s.filtering && !(isValid s.filter ep pkt.tsi)) = false)
-    (hg : AL.get s.table ⟨ep, pkt.tsi⟩ = some se) :
-    (MultiRecv.push M s ep (some { pkt with close := true })).1.outs
-      = (MultiRecv.push M s ep (some { pkt with close := false })).1.outs := by
-  simp [MultiRecv.push, hacc, hg, hneutral]
+theorem close_flagged_packet_without_session_is_ignored {σ π Out : Type} (M : Machine σ π Out) (s : State σ Out)
+    (ep : Endpoint) (pkt : Pkt π) (hc : pkt.close = true) (hg : AL.get s.table ⟨ep, pkt.tsi⟩ = none) :
+    (MultiRecv.push M s ep (some pkt)).1 = s := by
+  simp only [MultiRecv.push]
+  split
+  · rfl
+  · simp [hg]
 
-private def exLis : List (MultiRecv.Op Unit) :=
-  [.push exK1.ep (some exD), .tick 2, .cleanup 0, .push exK1.ep (some exD), .push exK1.ep (some exC),
-   .push exK1.ep (some exC), .push exK1.ep (some exD), .drop]
+/-- ... so for every session machine whose writer callbacks do not depend on the flag, the flagged packet delivers
+    exactly what the same packet without the flag delivers.  (For the real `Receiver` the flag is recorded in
+    `closed_is_imminent`, which nothing reads, and changes the RESULT of a TOI-0 packet without EXT_FDT from `Err` to
+    `Ok`; the callbacks are unaffected - validated by the harness' reference runs, hence `cb` projects the callbacks
+    out of an output.) -/
+theorem close_flag_keeps_payload {σ π Out C : Type} (M : Machine σ π Out) (cb : Out → C) (s : State σ Out)
+    (ep : Endpoint) (pkt : Pkt π) (st : σ)
+    (hneutral : ∀ t st (p : Pkt π), cb (M.push t st { p with close := true }).2 = cb (M.push t st { p with close := false }).2)
+    (hacc : (s.filtering && !(isValid s.filter ep pkt.tsi)) = false)
+    (hg : AL.get s.table ⟨ep, pkt.tsi⟩ = some st) :
+    ((newOuts s (MultiRecv.push M s ep (some { pkt with close := true })).1).head?.map (fun o => (o.1, cb o.2)))
+      = ((newOuts s (MultiRecv.push M s ep (some { pkt with close := false })).1).head?.map (fun o => (o.1, cb o.2))) := by
+  simp [MultiRecv.push, newOuts, hacc, hg, hneutral]
+
+private def exLis : List (MultiRecv.Op (List (Key × Nat))) :=
+  [.push exK1.ep (some exD), .tick 2, .cleanup exEnv, .push exK1.ep (some exD), .push exK1.ep (some exC),
+   .push exK1.ep (some exC), .push exK1.ep (some exD), .drop exEnv]
 
 /-- non-vacuity: open, expiry at cleanup, re-open by the next packet, close-session packet (a second one is
     ignored), open again, drop -/
 example :
     (MultiRecv.run (actMachine (some 1)) (State.new false) exLis).events =
-      [.opened exK1, .closed exK1, .opened exK1, .closed exK1, .opened exK1, .closed exK1] := by
+      [.opened exK1, .closed exK1, .opened exK1, .closed exK1, .opened exK1, .closed exK1]
+    -- and the callback keys logged: 2 per call (annotation), incl. the three destructions
+    ∧ ((MultiRecv.run (actMachine (some 1)) (State.new false) exLis).outs.map (fun o => o.2.length))
+        = [2, 2, 2, 0, 2, 2, 2] := by
   decide
 
 /-- WHICH listener sees what: after any history (including `add_listener` / `remove_listener` at any point) every
@@ -304,7 +406,7 @@ theorem listener_registered_throughout {σ π Out : Type} (M : Machine σ π Out
 example :
     let s := MultiRecv.run (actMachine none) (State.new false)
       [.addListener, .push exK1.ep (some exD), .addListener, .push exK2.ep (some exD), .push exK1.ep (some exC),
-       .removeListener 1, .drop]
+       .removeListener 1, .drop exEnv]
     AL.get s.listeners 0 = some [.opened exK1, .opened exK2, .closed exK1, .closed exK2]
       ∧ s.retired = [(1, [.opened exK2, .closed exK1])] := by
   decide
@@ -315,18 +417,18 @@ example :
   `retain(|_, v| !v.is_expired())`).  `is_expired` reads the clock; a session whose time-out elapses between the
   two evaluations was removed from the table without `on_session_closed`, and - being gone from the table - was not
   closed at drop either.  Witness on the pre-fix model (`PreFix.cleanup`, second evaluation `dt = 1` later): -/
-private def preS0 : State Act Unit :=
+private def preS0 : State Act (List Key) :=
   MultiRecv.run (actMachine (some 1)) (State.new false) [.push exK1.ep (some exD), .tick 1]
-private def preS1 : State Act Unit := PreFix.cleanup (actMachine (some 1)) preS0 0 1
+private def preS1 : State Act (List Key) := PreFix.cleanup (actMachine (some 1)) preS0 exEnv 1
 
 theorem prefix_cleanup_breaks_alternation :
     -- the session is gone, its open is still pending, and even dropping the receiver does not close it
     (AL.get preS1.table exK1).isSome = false ∧ alt exK1 preS1.events = some true
-      ∧ alt exK1 (MultiRecv.drop preS1).events = some true := by
+      ∧ alt exK1 (MultiRecv.drop (actMachine (some 1)) preS1 exEnv).events = some true := by
   decide
 
 /-- with `dt = 0` (both evaluations at the same instant) the pre-fix code and the repaired code coincide -/
-theorem prefix_cleanup_eq_of_no_delay {σ π Out : Type} (M : Machine σ π Out) (s : State σ Out) (now : Nat) :
+theorem prefix_cleanup_eq_of_no_delay {σ π Out : Type} (M : Machine σ π Out) (s : State σ Out) (now : π) :
     PreFix.cleanup M s now 0 = MultiRecv.cleanup M s now := by
   simp [PreFix.cleanup, MultiRecv.cleanup]
 
